@@ -9,8 +9,8 @@ import tempfile
 import time
 import z3
 
-Z3_TIMEOUT_MS = int(os.environ.get("PYVC_Z3_TIMEOUT_MS", "8000"))
-CVC5_TIMEOUT_MS = int(os.environ.get("PYVC_CVC5_TIMEOUT_MS", "10000"))
+Z3_TIMEOUT_MS = int(os.environ.get("PYVC_Z3_TIMEOUT_MS", "15000"))
+CVC5_TIMEOUT_MS = int(os.environ.get("PYVC_CVC5_TIMEOUT_MS", "12000"))
 Z3_SEED = 0     # non-zero: alternative random seed (used by the retry rounds)
 CVC5 = "/usr/bin/cvc5"
 
